@@ -6,6 +6,7 @@ from vf.gen import programs as G
 from vf.model import eval as ME
 from vf.checks.c02 import same_value
 from vf import cklrun
+from vf.model import values as mv
 
 PROPERTY = "C04"
 RULE = (
@@ -73,7 +74,52 @@ def judge(prop_id, src, m, got, label="program"):
     return None
 
 
+MAP_DEFAULT_LITERALS = [
+    "<<<'a' => 1, 'b' => 2>>>", "<<<2 => 'x', 1 => 'y'>>>", "<<<>>>",
+    "<<<'k' => [1, 2]>>>", "map([[1, 2], [3, 4]])",
+]
+MAP_DEFAULT_FORMS = [
+    ("list", "[x for x in m]", "[]", "append(r, x)"),
+    ("set", "<<x for x in m>>", "<<>>", "append(r, x)"),
+    ("list-if", "[x for x in m if TRUE]", "[]", "append(r, x)"),
+    ("list-product", "[[x, y] for x in m for y in [0]]", "[]",
+     "for y in [0] do append(r, [x, y]) end"),
+]
+
+
+def map_default_prop(lit, form):
+    """`[x for x in m]` against `for x in m do append(r, x) end` for a map m
+    and no keys / values / entries selector."""
+    name, comp, init, add = form
+    src = (f"def m = {lit}; def r = {init}; for x in m do {add} end; "
+           f"[{comp}, r]")
+    out = cklrun.run(src, budget=20)
+    if out[0] != "value":
+        return Finding(f"C04|comprehension-vs-loop|map-without-selector|"
+                       f"{out[0]}", f"{src} -> {cklrun.short(out)}")
+    a, b = cklrun.to_model(out[1])
+    if not mv.meq(a, b):
+        return Finding("C04|comprehension-vs-loop|map-without-selector",
+                       f"{src}: the comprehension gives {a!r}, the "
+                       f"equivalent loop {b!r}")
+    return None
+
+
+def part_map_default(part):
+    for lit in MAP_DEFAULT_LITERALS:
+        for form in MAP_DEFAULT_FORMS:
+            part.count()
+            part.distinct()
+            part.cls("map-without-selector:" + form[0])
+            part.collect(map_default_prop(lit, form),
+                         {"kind": "map-default", "lit": lit, "form": form[0]})
+    part.exhaustive = True
+
+
 def prop(case):
+    if case.get("kind") == "map-default":
+        form = [f for f in MAP_DEFAULT_FORMS if f[0] == case["form"]][0]
+        return map_default_prop(case["lit"], form)
     import ast as _ast
     stmts = _ast.literal_eval(case["ast"])
     m = ME.model_run(stmts)
@@ -124,7 +170,9 @@ def part_programs(part, n):
 
 
 def parts(tier, seed):
+    md = [("map-default", part_map_default, {})]
     if tier == "quick":
-        return [(f"programs-{i}", part_programs, {"n": 1200})
-                for i in range(10)]
-    return [(f"programs-{i}", part_programs, {"n": 12000}) for i in range(12)]
+        return md + [(f"programs-{i}", part_programs, {"n": 1200})
+                     for i in range(10)]
+    return md + [(f"programs-{i}", part_programs, {"n": 12000})
+                 for i in range(12)]
